@@ -73,7 +73,7 @@ Blank == [up |-> FALSE, term |-> 0, vote |-> 0, role |-> "F", lead |-> 0, log |-
           rq |-> {}]     \* requests issued HERE: [ctx, floor] (floor = highest index reported committed by then)
 NoDur == [hs |-> NoHS, shs |-> NoHS, log |-> <<>>, off |-> 0, offTerm |-> 0, snap |-> NoSnap]
 NoRd  == [has |-> FALSE, first |-> 0, ents |-> <<>>, hsset |-> FALSE, hs |-> NoHS, snap |-> NoSnap,
-          msgs |-> {}, reads |-> {}, hfrom |-> 0, hto |-> 0, nl |-> FALSE, soft |-> FALSE,
+          msgs |-> {}, reads |-> {}, hfrom |-> 0, hto |-> 0, nl |-> FALSE, soft |-> FALSE, sync |-> FALSE,
           pents |-> FALSE, phs |-> FALSE, sent |-> FALSE, confs |-> 0]
 
 -------------------------------------------------------------------------------
@@ -398,7 +398,12 @@ MkReady(s, k) ==
                   !.hsset = hs # s.phs, !.hs = IF hs # s.phs THEN hs ELSE NoHS,
                   !.snap = s.psnap, !.msgs = s.out, !.reads = s.rs,
                   !.hfrom = IF k >= HFrom(s) THEN HFrom(s) ELSE 0, !.hto = IF k >= HFrom(s) THEN k ELSE 0,
-                  !.soft = soft, !.nl = soft /\ s.role = "L"]
+                  !.soft = soft, !.nl = soft /\ s.role = "L",
+                  \* Ready.MustSync as node.newReady computes it (relative to the hard state of the last
+                  \* advanced Ready, empty after a restart); a Ready with a snapshot is persisted synchronously
+                  !.sync = Last(s) > s.stable \/ hs.term # s.phs.term \/ hs.vote # s.phs.vote \/ s.psnap.idx > 0]
+\* what the design REQUIRES to be synced (raft paper: term, vote, entries; plus a snapshot); syncing more is fine
+DesignMustSync(d, r) == Len(r.ents) > 0 \/ r.snap.idx > 0 \/ (r.hsset /\ (r.hs.term # d.hs.term \/ r.hs.vote # d.hs.vote))
 ReadyNonEmpty(r) == r.soft \/ r.hsset \/ r.snap.idx > 0 \/ Len(r.ents) > 0 \/ r.hto > 0 \/ r.msgs # {} \/ r.reads # {}
 \* a ReadState handed out with an index below what was reported committed before its request was issued
 StaleReads(s, reads) == {r \in reads : \E q \in s.rq : q.ctx = r.ctx /\ r.idx < q.floor}
@@ -429,6 +434,12 @@ PersistEnts(d, r) == StoreEnts(StoreSnap(d, r.snap), r.first, r.ents)
 PersistHS(d, r) == LET h == IF r.hsset THEN r.hs ELSE d.hs
                        must == Len(r.ents) > 0 \/ h.term # d.hs.term \/ h.vote # d.hs.vote \/ r.snap.idx > 0
                    IN [d EXCEPT !.hs = h, !.shs = IF must THEN h ELSE @]
+\* (Known weakness, round 4: the code also syncs the first hard state after a restart - MustSync is
+\* relative to the last ADVANCED hard state, empty after a restart - while this rule is relative to the
+\* durable state.  After such a write, an un-synced commit-only write and a power loss, the driver rolls
+\* back to a newer commit index than this rule expects: one thorough-tier false alarm at `restart` in
+\* about 180 traces.  Taking Ready.MustSync from the trace with DesignMustSync as a lower bound is the
+\* fix; the first attempt made quick runs fail and was reverted for lack of time.)
 
 \* ---- node.Advance
 AdvanceS(s, r) ==
